@@ -5,23 +5,24 @@ src/ed/relic_ed_pck.c (ed_pck / ed_upk) on affine points over Z/pZ.
 RELIC's own convention (not RFC 8032): one tag byte (0 alone = neutral element, 2|s = compressed with sign bit s, 4 =
 uncompressed), then y big-endian on RLC_FP_BYTES bytes, then (uncompressed only) x. The sign bit s of x is the low bit of
 the *stored* representation of x, i.e. of x·R mod p in the Montgomery builds (fp_norm + fp_get_bit on the raw digits).
-The field square root is a parameter `srt` (class-C algorithm of C02) with the contract "returns a root exactly when one exists".
+The field square root and inversion are parameters `srt`, `inv` (class-C algorithms of C02) with the contracts "returns a root
+exactly when one exists" and "a·inv a ≡ 1 for a ≢ 0".
 -/
 import RelicVerif.Spec.Edwards
+import RelicVerif.Model.EpConv
 
 namespace Relic.Model.EdConv
 open Relic.Spec.Edwards
+open Relic.Model.EpConv (beBytes beVal)
 
 structure Ctx where
   c : Curve
   nb : Nat                 -- RLC_FP_BYTES
   R : Nat                  -- Montgomery radix
   srt : Nat → Option Nat   -- fp_srt
+  inv : Nat → Nat          -- fp_inv
 
 abbrev Bytes := List UInt8
-
-def beBytes (n k : Nat) : Bytes := (List.range k).reverse.map fun i => UInt8.ofNat ((n / 256 ^ i) % 256)
-def beVal (b : Bytes) : Nat := b.foldl (fun acc x => acc * 256 + x.toNat) 0
 
 /-- the compression bit of x: fp_get_bit(fp_norm(x), 0) on the stored (Montgomery) form -/
 def signBit (x : Ctx) (v : Nat) : Nat := (v * x.R % x.c.p) % 2
@@ -52,7 +53,7 @@ def fpRead (x : Ctx) (b : Bytes) : Option Nat :=
 /-- the quantity whose square root ed_upk takes: (y² − 1)/(d·y² − a) -/
 def upkRhs (x : Ctx) (py : Nat) : Nat :=
   let c := x.c
-  fsub c (py * py) 1 * finv c (fsub c (c.d * (py * py % c.p)) c.a) % c.p
+  fsub c (py * py) 1 * x.inv (fsub c (c.d * (py * py % c.p)) c.a) % c.p
 
 /-- ed_upk: recover x from y and the sign bit; none = no x exists (the C function does not notice: it returns 1 and
     leaves whatever fp_srt left; ed_read_bin catches that with ed_on_curve) or the denominator d·y² − a vanishes
